@@ -203,7 +203,7 @@ impl<'a> Parser<'a> {
 
         read_outputs.sort_by(|(_, a), (_, b)| a.start.cmp(&b.start));
 
-        let virtual_signals = self
+        let mut virtual_signals = self
             .virtual_signals
             .into_iter()
             .map(|(name, (span, expr))| {
@@ -215,14 +215,12 @@ impl<'a> Parser<'a> {
                     span,
                 )
             })
-            .collect();
+            .collect::<Vec<_>>();
 
         #[cfg(feature = "verif-hooks")]
-        let virtual_signals = {
-            let mut virtual_signals: Vec<(VirtualSignal, logos::Span)> = virtual_signals;
-            crate::verif_hooks::reorder(&mut virtual_signals, |(_, span)| span.start);
-            virtual_signals
-        };
+        crate::verif_hooks::reorder(&mut virtual_signals, |(_, span)| span.start);
+
+        virtual_signals.sort_by(|(_, a), (_, b)| a.start.cmp(&b.start));
 
         ParseResult {
             expected_inputs,
